@@ -57,6 +57,13 @@ def run(ctx):
         n0 = 1 if top is None else top - rng.randint(0, 4) - (n + 4) + 1
         nums, prt, ict, space = make_pass(rng, n + 4, n0, phase, base)
         nd = {65534: ">u2", 32767: rng.choice([">i2", ">u2"])}.get(top) or rng.choice([None, ">u2", ">i2"])
+        if k % 2 == 1:
+            # isolated thermometer drop-outs (reading below 50 counts on a measurement line), one of them on the LAST
+            # thermometer of the cycle: they are repaired by interpolation, so anchor, monotonicity and phase freedom still hold
+            cand4 = [i for i, x in enumerate(nums) if (x - phase) % 5 == 4 and 12 <= i < len(nums) - 12]
+            cand = [i for i, x in enumerate(nums) if (x - phase) % 5 in (1, 2, 3) and 12 <= i < len(nums) - 12]
+            for i in ([rng.choice(cand4)] if cand4 else []) + (rng.sample(cand, 1) if cand and rng.random() < 0.5 else []):
+                prt[i] = rng.choice([0, 7, 40])
         if k % 3 == 2:
             # a data gap aligned with the PRT cycle (the four thermometer lines after a reset line missing): the anchor
             # and monotonicity clauses must hold on such a pass, too (phase freedom is only compared on gap-free passes)
